@@ -166,6 +166,8 @@ def r3(ctx):
     from . import c01, c09
     c01.r9(ctx)     # cost table = -loglik; stored cost = kernel's second result
     c01.r6(ctx)     # reported cost = cost of the returned path's start state
+    c01.r1(ctx)     # tables are written only by the recurrence
+    c01.r2(ctx)
     c01.r3(ctx)     # the recurrence accounts price b[i] exactly for pairs with different labels
     c01.r4(ctx)
     c09.r4(ctx)     # labels and cost in the result come from one state: the last relabel's
